@@ -418,6 +418,17 @@ fn ref_participation(refs: &[TRef], c: &regex::bytes::Captures<'_>) -> (bool, bo
 }
 
 pub fn check_icase(c: &ICase) -> Verdict {
+    let v = check_icase_inner(c);
+    if let Verdict::Fail(_) = &v {
+        let pat = icase_pat(c);
+        if let (Ok(m), Ok(o)) = (pat.build(), oracle::build(&pat)) {
+            return crate::mat::attribute_engine(v, &m, Some(&o.re), &c.hay.0, b'\n', false);
+        }
+    }
+    v
+}
+
+fn check_icase_inner(c: &ICase) -> Verdict {
     let pat = icase_pat(c);
     let matcher = match pat.build() {
         Ok(m) => m,
@@ -558,15 +569,21 @@ pub fn gen_case(t: &mut Tape, full_templates: bool) -> Case {
         let mut o = super::c13::ml_opts();
         o.allow_cr_nul = !crlf;
         let base = gen_cap_re(t, &o).render();
-        let p = match t.below(5) {
+        let p = match t.below(8) {
             0 => base,
             1 => format!("(?:{base})\\n"),
             2 => format!("(?:{base})(\\s)"),
             3 => format!("(\\n)?(?:{base})"),
-            _ => format!("(?:{base})\\n?({})", gen::gen_re(t, &o).render()),
+            4 => format!("(?:{base})\\n?({})", gen::gen_re(t, &o).render()),
+            // a look-around assertion right after a matched line terminator: it
+            // has to see the first byte of the following line
+            5 => format!("(?:{base})\\n{}", *t.pick(&["\\b", "\\B", "\\b{start}", "(?-u:\\b)", "\\b{start-half}"])),
+            6 => format!("(?:{base})\\n?{}", *t.pick(&["\\b{end-half}", "\\B", "\\b", "$"])),
+            _ => format!("(?:{base})\\s+{}", *t.pick(&["\\b", "\\B", "$"])),
         };
         let mut pc = PatCfg::simple(&p, term);
         pc.multiline = true;
+        pc.word = t.chance(1, 8);
         pc.dotall = t.chance(1, 5);
         pc
     } else {
@@ -1102,6 +1119,18 @@ fn cli_args(case: &Case) -> Vec<std::ffi::OsString> {
 }
 
 pub fn check(case: &Case) -> Verdict {
+    let v = check_inner(case);
+    if let Verdict::Fail(_) = &v {
+        // attribute failures on inputs where the regex engine contradicts itself
+        if let (Ok(m), Ok(o)) = (case.pat.build(), oracle::build(&case.pat)) {
+            let term = case.cfg.term;
+            return crate::mat::attribute_engine(v, &m, Some(&o.re), &case.input.0, term.byte(), term == Term::Crlf);
+        }
+    }
+    v
+}
+
+fn check_inner(case: &Case) -> Verdict {
     if crate::gen::starts_with_bom(&case.input.0) {
         return Verdict::Reject("input starts with a byte-order mark (transcoding is C17's subject)");
     }
